@@ -106,6 +106,7 @@ type Case struct {
 	HangMs    int          `json:"hangms"`
 	Tmods     []string     `json:"tmods"`   // per call: what the APPLICATION does to the terminal before it ("raw", "noecho", "" = nothing)
 	RPrompt   string       `json:"rprompt"` // right-side prompt of the application ("" = none)
+	TPrompt   string       `json:"tprompt"` // transient prompt of the application (shown in place of the primary one once a line is accepted, with prompt-transient)
 	PreActs   [][]Action   `json:"preacts"` // per call: what the application does through the Shell's API before it (histdel, rebind)
 }
 
@@ -338,6 +339,10 @@ func runCase(cs *Case, ci int, pty *ptyPair, em *emu, home string) (alive bool) 
 	rl := readline.NewShell()
 	prompt := cs.Prompt
 	rl.Prompt.Primary(func() string { return prompt })
+	if cs.TPrompt != "" {
+		tp := cs.TPrompt
+		rl.Prompt.Transient(func() string { return tp })
+	}
 	if cs.RPrompt != "" {
 		rp := cs.RPrompt
 		rl.Prompt.Right(func() string { return rp })
